@@ -253,6 +253,66 @@ pub fn run(a: &Args) -> i32 {
     }
     rep.add("histories_with_reused_context", hist_count);
 
+    // ---------- (b') games sharing one context along every quiet king path (triangulations) ----------
+    {
+        let root = Pos::from_fen("7k/8/8/8/8/8/8/K7 w - - 0 1").unwrap();
+        let allowed: Vec<Sq> = ["a1", "b1", "b2", "a2", "h8", "g8", "g7", "h7"].iter().map(|s| parse_sq(s).unwrap()).collect();
+        let len = if thorough { 6 } else { 5 };
+        let mut paths: Vec<Vec<Move>> = vec![vec![]];
+        for _ in 0..len {
+            let mut next = Vec::new();
+            for h in &paths {
+                let mut p = root.clone();
+                for m in h {
+                    p = p.make(m);
+                }
+                for m in p.legal_moves().into_iter().filter(|m| allowed.contains(&m.from) && allowed.contains(&m.to)) {
+                    let mut t = h.clone();
+                    t.push(m);
+                    next.push(t);
+                }
+            }
+            paths = next;
+        }
+        let npaths = paths.len() as u64;
+        let next = AtomicUsize::new(0);
+        let (paths, root) = (&paths, &root);
+        std::thread::scope(|sc| {
+            for _ in 0..8 {
+                sc.spawn(|| loop {
+                    let i = next.fetch_add(1, Ordering::Relaxed);
+                    if i >= paths.len() {
+                        break;
+                    }
+                    for depth in [1u8, 2, 3] {
+                        let mut ctx = SearchContext::new(depth);
+                        let mut g = MoveGenerator::new();
+                        let mut pos = root.clone();
+                        let mut board = build_board(&pos);
+                        let mut played: Vec<String> = Vec::new();
+                        for k in 0..=paths[i].len() {
+                            let (out, _) = run_search(&mut board, &mut ctx, &mut g);
+                            searches.fetch_add(1, Ordering::Relaxed);
+                            let (vals, rootv) = oracle(&ocache, &pos, depth, &onodes);
+                            if let Some((cls, det)) = judge(&out, &vals, rootv, "reused-context") {
+                                sink.push(Violation { prop: "C08".into(), class: cls, seed: root.to_fen(), path: played.clone(), detail: format!("search number {} of a king-path game at depth {} in {}: {}", k + 1, depth, pos.to_fen(), det), extra: json!({"kind": "c08-path", "fen": root.to_fen(), "depth": depth, "history": paths[i].iter().map(uci).collect::<Vec<_>>()}) });
+                                break;
+                            }
+                            if k < paths[i].len() {
+                                let m = &paths[i][k];
+                                impl_move_from_model(m, pos.stm).apply(&mut board).expect("path apply");
+                                board.toggle_turn();
+                                pos = pos.make(m);
+                                played.push(uci(m));
+                            }
+                        }
+                    }
+                });
+            }
+        });
+        rep.add("king_path_games_with_reused_context", npaths);
+    }
+
     // ---------- engine-vs-engine game lines with one context ----------
     let mut line_searches = 0u64;
     for (name, fen, depth, plies) in [("startpos", HIST_SEEDS[0].1, 2u8, 24usize), ("startpos", HIST_SEEDS[0].1, 3u8, if thorough { 24 } else { 10 }), ("krk", HIST_SEEDS[1].1, 4u8, 16)] {
@@ -346,13 +406,14 @@ pub fn replay(v: &serde_json::Value) -> i32 {
             if k >= hist.len() {
                 return None;
             }
-            for t in &hist[k..k + 2] {
+            let stride = if kind == "c08-path" { 1 } else { 2 };
+            for t in &hist[k..(k + stride).min(hist.len())] {
                 let m = pos.legal_moves().into_iter().find(|m| uci(m) == *t).expect("replay history");
                 impl_move_from_model(&m, pos.stm).apply(&mut board).unwrap();
                 board.toggle_turn();
                 pos = pos.make(&m);
             }
-            k += 2;
+            k += stride;
         }
     };
     let (a, b) = (run_once(), run_once());
